@@ -24,7 +24,7 @@ theorem InvE.pres_g3 {cfg : Cfg} {s s' : State} {l : Label} (hI : InvE cfg s)
     kind_startupCleanup_iff, kind_coreWatch_iff] at *)
   all_goals (try subst_vars)
   all_goals (try dsimp only)
-  all_goals (grind [upd, Root.kind, TS.active, TS.live, TS.ended, TS.isStopping, failTS, cancelSubs,
+  all_goals (grind [upd, Root.kind, TS.active, TS.live, TS.ended, TS.isStopping, failTS, cancelSubs, cancelPingers,
     cancelRoots, cancelRootsV, Pend.ts, stopReqNow])
 
 end Kopf.C20
